@@ -54,6 +54,8 @@ func runC11(c *Ctx) {
 	rulePoolLimits(c, p, "C11.limits")
 	rulePoolCtorLeak(c, p, "C11.ctor-leak")
 	ruleHealthNonBlocking(c, p, "C11.health-nonblocking")
+	ruleClockKind(c, p, "C11.clock-kind")
+	rulePoolCtxDetached(c, p, "C11.pool-ctx")
 	ruleHijackCloses(c, p, "C11.hijack-closes")
 	ruleCloseWaits(c, p, "C11.close-waits")
 	if roles := resolveDo(c, p); roles != nil {
